@@ -53,7 +53,8 @@ func verifyFunc(p *Prog, key string) *FuncResult {
 	e.vc.assume(app("<", "0", top0))
 	st.top = top0
 	e.registerGhosts(st)
-	// symbolic parameters
+	// symbolic parameters (may alias each other and anything allocated before the call)
+	e.freshResultsAlias = true
 	var args []Val
 	for i, prm := range fn.Params {
 		name := prm.Name()
@@ -68,6 +69,7 @@ func verifyFunc(p *Prog, key string) *FuncResult {
 	for _, fv := range fn.FreeVars {
 		fr.bindings = append(fr.bindings, e.freshVal(st, "fv_"+fv.Name(), fv.Type()))
 	}
+	e.freshResultsAlias = false
 	entry := st.clone()
 	if c != nil {
 		if c.Trusted {
